@@ -35,7 +35,7 @@ static int cmd_replay(int argc, char **argv) {
 	if (prop == "C11") return gen::c11_replay(*pj, arg_flag(argc, argv, "--trace"));
 	ops::Plan plan;
 	if (!ops::plan_from_json(*pj, plan, err)) { fprintf(stderr, "replay: %s\n", err.c_str()); return 2; }
-	if (plan.note == "fullshipped") exec::enable_shipped_full_mem_model();
+	if (plan.fullmem_model) exec::enable_shipped_full_mem_model();
 	exec::Options opt; opt.replay = true; opt.trace = arg_flag(argc, argv, "--trace");
 	exec::Report rep = exec::execute(plan, opt);
 	printf("%s\n", exec::report_to_json(rep, plan, arg_flag(argc, argv, "--with-plan")).c_str());
